@@ -23,6 +23,11 @@ fn main() {
     }
     std::panic::set_hook(Box::new(|_| {}));
     let args: Vec<String> = std::env::args().collect();
+    if args.get(1).map(|s| s.as_str()) == Some("--wrong-key") {
+        let v = wrong_key_cells();
+        println!("wrong-key cells: {v:?}");
+        std::process::exit(if v.is_empty() { 0 } else { 1 });
+    }
     if args.get(1).map(|s| s.as_str()) == Some("--replay") {
         let c: c14::Case = serde_json::from_str(&args[2]).expect("case json");
         let (class, v) = c14::judge(&c);
@@ -32,9 +37,122 @@ fn main() {
     if let Err(e) = c14::defaults_ok() {
         println!("{}", json!({"t": "v", "sig": "C14:defaults-not-off", "what": format!("[rustls] {e}"), "case": {"engine": "c14", "backend": "rustls", "defaults": true}, "rank": 0}));
     }
+    for (sig, what) in wrong_key_cells() {
+        println!("{}", json!({"t": "v", "sig": sig, "what": what, "case": {"engine": "c14", "backend": "rustls", "wrong_key": true}, "rank": 1}));
+    }
     let r = c14::run_matrix();
     for (sig, what, case, rank) in &r.violations {
         println!("{}", json!({"t": "v", "sig": sig, "what": what, "case": case, "rank": rank}));
     }
     println!("{}", json!({"t": "done", "n": r.n, "outcomes": r.outcomes}));
+}
+
+//
+// A peer that presents a validly chained certificate but does not hold its key (it signs the
+// handshake with another key). Only a rustls server lets us build such a peer; the flags that waive
+// the NAME check must not waive the proof of possession.
+//
+fn pem_der(name: &str, ext: &str) -> Vec<u8> {
+    use base64::Engine;
+    let text = String::from_utf8(tlslab::pem(name, ext)).unwrap();
+    let b64: String = text.lines().filter(|l| !l.starts_with("-----")).collect();
+    base64::engine::general_purpose::STANDARD.decode(b64).unwrap()
+}
+
+#[derive(Debug)]
+struct Fixed(std::sync::Arc<rustls::sign::CertifiedKey>);
+
+impl rustls::server::ResolvesServerCert for Fixed {
+    fn resolve(&self, _: rustls::server::ClientHello<'_>) -> Option<std::sync::Arc<rustls::sign::CertifiedKey>> {
+        Some(self.0.clone())
+    }
+}
+
+fn rustls_server(cert: &str, key: &str) -> Option<std::net::SocketAddr> {
+    use std::io::{Read, Write};
+    let provider = rustls::crypto::CryptoProvider::get_default().cloned().or_else(|| {
+        // the client under test installs none explicitly: take the one compiled in
+        let _ = rustls::ClientConfig::builder();
+        rustls::crypto::CryptoProvider::get_default().cloned()
+    })?;
+    let key_der = rustls::pki_types::PrivateKeyDer::Pkcs8(rustls::pki_types::PrivatePkcs8KeyDer::from(pem_der(key, "key")));
+    let signing = provider.key_provider.load_private_key(key_der).ok()?;
+    let ck = rustls::sign::CertifiedKey::new(vec![rustls::pki_types::CertificateDer::from(pem_der(cert, "crt"))], signing);
+    let cfg = rustls::ServerConfig::builder_with_provider(provider)
+        .with_safe_default_protocol_versions()
+        .ok()?
+        .with_no_client_auth()
+        .with_cert_resolver(std::sync::Arc::new(Fixed(std::sync::Arc::new(ck))));
+    let cfg = std::sync::Arc::new(cfg);
+    let l = std::net::TcpListener::bind("127.0.0.1:0").ok()?;
+    let addr = l.local_addr().ok()?;
+    std::thread::spawn(move || {
+        for s in l.incoming().flatten() {
+            let _ = s.set_read_timeout(Some(std::time::Duration::from_secs(3)));
+            let conn = match rustls::ServerConnection::new(cfg.clone()) {
+                Ok(c) => c,
+                Err(_) => continue,
+            };
+            let mut tls = rustls::StreamOwned::new(conn, s);
+            let mut buf = [0u8; 2048];
+            let mut got = Vec::new();
+            while !got.windows(4).any(|w| w == b"\r\n\r\n") {
+                match tls.read(&mut buf) {
+                    Ok(0) | Err(_) => break,
+                    Ok(n) => got.extend_from_slice(&buf[..n]),
+                }
+            }
+            let _ = tls.write_all(b"HTTP/1.1 200 OK\r\nContent-Length: 2\r\n\r\nok");
+            let _ = tls.flush();
+            tls.conn.send_close_notify();
+            let _ = tls.flush();
+        }
+    });
+    Some(addr)
+}
+
+fn wrong_key_cells() -> Vec<(String, String)> {
+    let mut out = Vec::new();
+    let root = {
+        rustls::pki_types::CertificateDer::from(pem_der("root", "crt"))
+    };
+    // (server certificate, server key, name matches, accept_invalid_hostnames, must succeed)
+    let cells = [
+        ("good", "good", true, false, Some(true)),
+        ("good", "othername", true, false, Some(false)),
+        ("good", "othername", true, true, Some(false)),
+        ("othername", "good", false, true, Some(false)),
+        ("othername", "othername", false, true, Some(true)),
+        ("othername", "othername", false, false, Some(false)),
+    ];
+    for (cert, key, _matches, aih, want) in cells {
+        let addr = match rustls_server(cert, key) {
+            Some(a) => a,
+            None => {
+                eprintln!("MACHINERY: cannot start the rustls test server");
+                std::process::exit(2);
+            }
+        };
+        attohttpc::verif::set_resolution("good.test", Some(vec![addr]));
+        let res = common::guarded(|| {
+            attohttpc::get("https://good.test:4443/k")
+                .proxy_settings(attohttpc::ProxySettings::builder().build())
+                .add_root_certificate(root.clone())
+                .danger_accept_invalid_hostnames(aih)
+                .timeout(std::time::Duration::from_secs(10))
+                .send()
+                .and_then(|r| r.bytes())
+        });
+        attohttpc::verif::set_resolution("good.test", None);
+        let ok = matches!(&res, Ok(Ok(b)) if b == b"ok");
+        if Some(ok) != want {
+            let (sig, why) = if ok {
+                ("C14:peer-without-the-key-accepted", "the exchange succeeded although the peer signed the handshake with a key that does not belong to the certificate it presented")
+            } else {
+                ("C14:valid-peer-rejected:rustls-server", "the exchange failed although the peer holds the key of a certificate that satisfies the rule")
+            };
+            out.push((sig.to_string(), format!("[rustls] certificate {cert}.crt, handshake key {key}.key, accept_invalid_hostnames {aih}, root added: {why} ({res:?})")));
+        }
+    }
+    out
 }
